@@ -159,157 +159,149 @@ Ltac ind_norm :=
          | |- context [ind ?x ?e] =>
              tryif is_var e then fail else
                (let v := eval cbn in (oid e) in
-                match v with oid ?o => rewrite (ind_oid x o e eq_refl) end)
+                match v with
+                | oid ?o => rewrite (ind_oid x o e eq_refl)
+                | _ => change (ind x e) with (if Nat.eqb v x then 1 else 0)
+                end)
          end.
 
-(* ---- the potential never increases *)
-Ltac phi_arith Hpc :=
-  unfold Phi, fresh; sp;
-  rewrite ?(sum_upd PNone) by reflexivity;
-  unfold pcof in Hpc; rewrite ?Hpc; cbn [w]; ind_norm;
-  rewrite ?cl_app; cbn [cl]; ind_norm;
+Lemma sem_add_get_w d x s t :
+  w d x (get PNone t (tasks (sem_add s))) = w d x (get PNone t (tasks s)).
+Proof. exact (sem_add_pc_w d x s t). Qed.
+
+(* ---- the potential never increases.  The proof is written so that it does not depend on the
+   number or the order of the program counters of the managed model: every case is closed by
+   the same tactic, which recognises the composite helpers by their names. *)
+Ltac nonneg_facts x :=
   repeat match goal with
-         | |- context [ind ?x ?o] =>
+         | |- context [ind x ?o] =>
              lazymatch goal with
              | _ : 0 <= ind x o |- _ => fail
              | _ => pose proof (ind_nonneg x o)
              end
+         | |- context [cl x ?l] =>
+             lazymatch goal with
+             | _ : 0 <= cl x l |- _ => fail
+             | _ => pose proof (cl_nonneg x l)
+             end
+         | H : context [cl x ?l] |- _ =>
+             lazymatch goal with
+             | _ : 0 <= cl x l |- _ => fail
+             | _ => pose proof (cl_nonneg x l)
+             end
+         end.
+
+(* case analysis of a step hypothesis; the lemmas about the list helpers are recorded on the way *)
+Ltac split_step x H :=
+  try match type of H with
+      | context [retain_loop ?t ?ds ?v ?s0] =>
+          let RE := fresh "RE" in let RC := fresh "RC" in
+          pose proof (retain_loop_effect t ds v s0) as RE;
+          pose proof (retain_loop_cl x t ds v s0) as RC;
+          destruct (retain_loop t ds v s0) as [[? ?] ?];
+          destruct RE as (_&_&_&RE4&_&_&_&_&RE9&RE10&_&_&RE13&_)
+      end;
+  repeat match type of H with
+         | context [if ?b then _ else _] => destruct b eqn:?
+         | context [match ?y with _ => _ end] => destruct y eqn:?
          end;
-  first [lia|idtac].
+  repeat match goal with
+         | Ep : pop_idle _ _ = Some (_, _) |- _ => pose proof (pop_idle_cl x _ _ _ _ Ep); clear Ep
+         | Ef : find_oid _ _ = Some _ |- _ => pose proof (find_remove_cl x _ _ _ Ef); clear Ef
+         end.
+
+Ltac phi_pre x Hpc :=
+  unfold Phi, fresh, acquire, leave_wait, next_stage, first_stage, new_obj, status_event;
+  repeat match goal with
+         | |- context [if ?b then _ else _] =>
+             lazymatch b with
+             | Nat.leb _ _ => fail
+             | Nat.eqb _ _ => fail
+             | _ => destruct b
+             end
+         | |- context [match ?y with _ => _ end] =>
+             lazymatch y with
+             | gw _ => destruct y
+             | pre _ => destruct y
+             | post _ => destruct y
+             | pcr _ => destruct y
+             | _ => is_var y; destruct y
+             end
+         end;
+  sp; autorewrite with fld;
+  repeat match goal with
+         | |- context [emit_removed ?t ?l ?y] =>
+             let F := fresh "F" in
+             pose proof (emit_removed_fields t l y) as F; cbv zeta in F;
+             destruct F as (_&_&_&F4&_&_&_&_&F9&F10&_&_&F13);
+             rewrite ?F4, ?F9, ?F10, ?F13; clear F4 F9 F10 F13
+         | |- context [emit_destroyed ?t ?l ?y] =>
+             let F := fresh "F" in
+             pose proof (emit_destroyed_fields t l y) as F; cbv zeta in F;
+             destruct F as (_&_&_&F4&_&_&_&_&F9&F10&_&_&F13);
+             rewrite ?F4, ?F9, ?F10, ?F13; clear F4 F9 F10 F13
+         | |- context [sum (w ?d x) (tasks (resize_locked ?s0 ?t ?n))] =>
+             let E := fresh "E" in
+             pose proof (resize_locked_phi d x s0 t n) as E; cbv zeta in E;
+             destruct E as (E1&E2&E3&E4&E5);
+             rewrite ?E2, ?E3, ?E4; revert E1; generalize (vec (resize_locked s0 t n)); intros ? E1
+         | |- context [sum (w ?d x) (upd PNone ?t0 ?p (tasks (resize_locked ?s0 ?t ?n)))] =>
+             let E := fresh "E" in
+             pose proof (resize_locked_phi d x s0 t n) as E; cbv zeta in E;
+             destruct E as (E1&E2&E3&E4&E5);
+             rewrite (sum_upd PNone) by reflexivity; unfold pcof in E5;
+             rewrite ?E2, ?E3, ?E4, ?E5; revert E1; generalize (vec (resize_locked s0 t n)); intros ? E1
+         end;
+  sp; rewrite ?(sum_upd PNone) by reflexivity;
+  rewrite ?sem_add_get_w, ?sem_add_w;
+  repeat match goal with
+         | E : tasks ?a = tasks _ |- context [tasks ?a] => rewrite E
+         | E : out ?a = out _ |- context [out ?a] => rewrite E
+         | E : next_oid ?a = next_oid _ |- context [next_oid ?a] => rewrite E
+         | E : vec ?a = vec _ |- context [vec ?a] => rewrite E
+         end;
+  unfold pcof in Hpc; rewrite ?Hpc; cbn [w]; ind_norm;
+  rewrite ?cl_app; cbn [cl]; ind_norm; cbn [ind oid];
+  nonneg_facts x;
+  try match goal with |- context [if Nat.eqb ?a ?b then _ else _] => destruct (Nat.eqb_spec a b); subst end;
+  repeat match goal with |- context [Nat.leb ?a ?b] => destruct (Nat.leb_spec a b) end.
+
+Ltac phi_finish x Hpc :=
+  phi_pre x Hpc; first [lia | match goal with dd : bool |- _ => destruct dd; lia end].
 
 Lemma pcof_fresh' s t : Nat.eqb t (length (tasks s)) = true -> pcof s t = PNone.
 Proof. intros H. apply Nat.eqb_eq in H. unfold pcof. apply get_beyond. lia. Qed.
 
 Theorem Phi_step d x c s l s' : step c s l = Some s' -> Phi d x s' <= Phi d x s.
 Proof.
-  intros H. destruct l as [t o|t|t r|t|t|n]; cbn [step] in H.
+  intros H. destruct l; cbn [step] in H.
   - (* Start *)
-    unfold start in H. destruct (Nat.eqb t (length (tasks s))) eqn:Et; cbn [negb] in H; [|discriminate].
-    pose proof (pcof_fresh' s t Et) as Hpc.
-    destruct o as [g|y|y|n|ds| | | ]; cbn [option_map] in H.
-    + destruct (alive s); inversion H; subst. phi_arith Hpc.
-    + destruct (find_oid y (out s)) eqn:Ef; inversion H; subst.
-      pose proof (find_remove_cl x _ _ _ Ef). phi_arith Hpc.
-    + destruct (find_oid y (out s)) eqn:Ef; inversion H; subst.
-      pose proof (find_remove_cl x _ _ _ Ef). phi_arith Hpc.
-    + destruct (alive s); inversion H; subst. phi_arith Hpc.
-    + destruct (alive s); inversion H; subst. phi_arith Hpc.
-    + destruct (alive s); inversion H; subst. phi_arith Hpc.
-    + destruct (alive s); inversion H; subst. phi_arith Hpc.
-    + destruct (alive s && all_done (tasks s)); inversion H; subst. phi_arith Hpc.
+    unfold start in H.
+    match type of H with context [Nat.eqb ?t (length (tasks s))] =>
+      destruct (Nat.eqb t (length (tasks s))) eqn:Et; cbn [negb] in H; [|discriminate];
+      pose proof (pcof_fresh' s t Et) as Hpc end.
+    destruct o; cbn [option_map] in H; split_step x H; try discriminate H;
+      inversion H; subst; phi_finish x Hpc.
   - (* Step *)
     unfold step_task in H.
-    destruct (pcof s t) eqn:Hpc; cbn [option_map] in H; try discriminate H.
-    + (* GStart *) destruct (gr g); [|destruct (runtime c)..]; inversion H; subst; phi_arith Hpc.
-    + (* GAcq *) inversion H; subst. unfold acquire.
-      destruct (gw g); cbn match;
-        repeat match goal with |- context [if ?b then _ else _] => destruct b end; phi_arith Hpc.
-    + (* GWait *) destruct (closed s); [|destruct a]; inversion H; subst; try destruct a; phi_arith Hpc.
-    + (* GSettle *) destruct (Z.ltb 0 (debt s)); inversion H; subst; phi_arith Hpc.
-    + (* GPop *)
-      destruct (pop_idle c (vec s)) as [[o r]|] eqn:Ep.
-      * inversion H; subst. pose proof (pop_idle_cl x _ _ _ _ Ep).
-        unfold first_stage. destruct (pre c); phi_arith Hpc.
-      * destruct (gc g); [|destruct (runtime c)..]; inversion H; subst; phi_arith Hpc.
-    + (* GCreated *) destruct (pcr c); inversion H; subst; phi_arith Hpc.
-    + (* UUnready *) inversion H; subst. destruct d; phi_arith Hpc.
-    + (* UDetach *) destruct c0; inversion H; subst; destruct d; phi_arith Hpc.
-    + (* UPermit *) inversion H; subst. unfold Phi, fresh. sp. autorewrite with fld.
-      rewrite (sum_upd PNone) by reflexivity. fold (pcof (sem_add s) t).
-      rewrite sem_add_pc_w, sem_add_w, Hpc. cbn [w]. lia.
-    + (* UUsers *) inversion H; subst. phi_arith Hpc.
-    + (* RStart *) destruct (alive s); inversion H; subst; phi_arith Hpc.
-    + (* RLock *) destruct (Z.leb (size s) (maxs s)); inversion H; subst; phi_arith Hpc.
-    + (* RAdd *) inversion H; subst. unfold Phi, fresh. sp. autorewrite with fld.
-      rewrite (sum_upd PNone) by reflexivity. fold (pcof (sem_add s) t).
-      rewrite sem_add_pc_w, sem_add_w, Hpc. cbn [w]. lia.
-    + (* RSurplus *) inversion H; subst. unfold Phi, fresh. sp. autorewrite with fld.
-      rewrite (sum_upd PNone) by reflexivity. fold (pcof (sem_add s) t).
-      rewrite sem_add_pc_w, sem_add_w, Hpc. cbn [w]. lia.
-    + (* RDetach *) inversion H; subst. phi_arith Hpc.
-    + (* TStart *) destruct (alive s); inversion H; subst; phi_arith Hpc.
-    + (* TLock *) inversion H; subst. phi_arith Hpc.
-    + (* TAdd *) inversion H; subst. unfold Phi, fresh. sp. autorewrite with fld.
-      rewrite (sum_upd PNone) by reflexivity. fold (pcof (sem_add s) t).
-      rewrite sem_add_pc_w, sem_add_w, Hpc. cbn [w]. lia.
-    + (* TDetach *) inversion H; subst. phi_arith Hpc.
-    + (* OResize *)
-      destruct (closed s); inversion H; subst; [phi_arith Hpc|].
-      pose proof (resize_locked_phi d x s t (Z.of_nat n)) as E. cbv zeta in E.
-      destruct E as (E1&E2&E3&E4&E5).
-      unfold Phi, fresh. sp. rewrite (sum_upd PNone) by reflexivity.
-      fold (pcof (resize_locked s t (Z.of_nat n)) t). rewrite E2, E3, E4, E5, Hpc. cbn [w]. lia.
-    + (* ORetain *)
-      pose proof (retain_loop_effect t ds (vec s) s) as E.
-      pose proof (retain_loop_cl x t ds (vec s) s) as Ec.
-      destruct (retain_loop t ds (vec s) s) as [[s1 kept] removed].
-      destruct E as (E1&E2&E3&E4&E5&E6&E7&E8&E9&E10&E11&E12&E13&E14).
-      inversion H; subst.
-      match goal with |- Phi d x (tick (setpc (emit_removed t removed ?y) t _)) <= _ =>
-        pose proof (emit_removed_fields t removed y) as F; cbv zeta in F; sp;
-        destruct F as (F1&F2&F3&F4&F5&F6&F7&F8&F9&F10&F11&F12&F13) end.
-      unfold Phi, fresh. sp. rewrite (sum_upd PNone) by reflexivity.
-      rewrite F4, F9, F10, F13, E9, E10, E13. unfold pcof in Hpc. rewrite Hpc. cbn [w].
-      pose proof (cl_nonneg x removed). lia.
-    + (* OClose *)
-      inversion H; subst.
-      pose proof (resize_locked_phi d x (set_queue (set_closed s true) []) t 0) as E. cbv zeta in E.
-      destruct E as (E1&E2&E3&E4&E5).
-      unfold Phi, fresh. sp. rewrite (sum_upd PNone) by reflexivity.
-      match goal with |- context [get PNone t (tasks ?y)] => fold (pcof y t) end.
-      rewrite E2, E3, E4, E5. sp. change (pcof (set_queue (set_closed s true) []) t) with (pcof s t).
-      rewrite Hpc. cbn [w]. sp. lia.
-    + (* OStatus *) inversion H; subst. phi_arith Hpc.
-    + (* ODropPool *)
-      inversion H; subst.
-      match goal with |- Phi d x (tick (setpc (emit_destroyed t ?l ?y) t _)) <= _ =>
-        pose proof (emit_destroyed_fields t l y) as F; cbv zeta in F; sp;
-        destruct F as (F1&F2&F3&F4&F5&F6&F7&F8&F9&F10&F11&F12&F13) end.
-      unfold Phi, fresh. sp. rewrite (sum_upd PNone) by reflexivity.
-      rewrite F4, F9, F10, F13. unfold pcof in Hpc. rewrite Hpc. cbn [w cl].
-      pose proof (cl_nonneg x (vec s)). lia.
+    match type of H with context [pcof s ?t] => destruct (pcof s t) eqn:Hpc end;
+      cbn [option_map] in H; try discriminate H; split_step x H; try discriminate H;
+      inversion H; subst; phi_finish x Hpc.
   - (* Env *)
     unfold env_task in H.
-    destruct (pcof s t) eqn:Hpc; cbn [option_map] in H; try discriminate H.
-    + (* GRec *)
-      destruct r; inversion H; subst; [|destruct d; phi_arith Hpc..].
-      unfold next_stage.
-      destruct st as [k| |k];
-        repeat match goal with
-               | |- context [if ?b then _ else _] => destruct b
-               | |- context [match post c with _ => _ end] => destruct (post c)
-               end; phi_arith Hpc.
-    + (* GCreate *)
-      destruct r; inversion H; subst; [|phi_arith Hpc..].
-      unfold Phi, fresh, new_obj. sp. rewrite (sum_upd PNone) by reflexivity.
-      unfold pcof in Hpc. rewrite Hpc. cbn [w]. unfold ind. cbn [oid].
-      destruct (Nat.eqb_spec (next_oid s) x) as [->|Hne].
-      * rewrite Nat.leb_refl. destruct (Nat.leb_spec (S x) x); lia.
-      * destruct (Nat.leb_spec (next_oid s) x); destruct (Nat.leb_spec (S (next_oid s)) x); lia.
-    + (* GPostC *)
-      destruct r; [destruct (Nat.ltb (S k) (length (pcr c)))|..]; inversion H; subst;
-        try destruct d; phi_arith Hpc.
+    match type of H with context [pcof s ?t] => destruct (pcof s t) eqn:Hpc end;
+      cbn [option_map] in H; try discriminate H; split_step x H; try discriminate H;
+      inversion H; subst; phi_finish x Hpc.
   - (* Cancel *)
     unfold cancel_task in H.
-    destruct (pcof s t) eqn:Hpc; cbn [option_map] in H; try discriminate H.
-    + inversion H; subst. unfold leave_wait. destruct a.
-      * unfold Phi, fresh. sp. autorewrite with fld.
-        rewrite (sum_upd PNone) by reflexivity. fold (pcof (sem_add s) t).
-        rewrite sem_add_pc_w, sem_add_w, Hpc. cbn [w]. lia.
-      * phi_arith Hpc.
-    + destruct (stage_async c st); inversion H; subst. destruct d; phi_arith Hpc.
-    + inversion H; subst. phi_arith Hpc.
-    + destruct (is_async (pcr c) k); inversion H; subst. destruct d; phi_arith Hpc.
+    match type of H with context [pcof s ?t] => destruct (pcof s t) eqn:Hpc end;
+      cbn [option_map] in H; try discriminate H; split_step x H; try discriminate H;
+      inversion H; subst; phi_finish x Hpc.
   - (* Fire *)
     unfold fire_task in H. destruct (negb (runtime c)); [discriminate|].
-    destruct (pcof s t) eqn:Hpc; cbn [option_map] in H; try discriminate H.
-    + destruct (gw g); inversion H; subst. unfold leave_wait. destruct a.
-      * unfold Phi, fresh. sp. autorewrite with fld.
-        rewrite (sum_upd PNone) by reflexivity. fold (pcof (sem_add s) t).
-        rewrite sem_add_pc_w, sem_add_w, Hpc. cbn [w]. lia.
-      * phi_arith Hpc.
-    + destruct st; try discriminate H. destruct (timed (gr g)); inversion H; subst. destruct d; phi_arith Hpc.
-    + destruct (timed (gc g)); inversion H; subst. phi_arith Hpc.
+    match type of H with context [pcof s ?t] => destruct (pcof s t) eqn:Hpc end;
+      cbn [option_map] in H; try discriminate H; split_step x H; try discriminate H;
+      inversion H; subst; phi_finish x Hpc.
   - inversion H; subst. lia.
 Qed.
 
@@ -445,84 +437,87 @@ Proof.
   intros Hin. apply IH in Hin. sp. cbn [In] in Hin. destruct Hin as [<-|Hin]; [discriminate He|exact Hin].
 Qed.
 
-Ltac ho_plain :=
-  sp; autorewrite with fld; cbn [In];
-  let Hin := fresh "Hin" in intros Hin;
+(* strip the list helpers off a membership hypothesis about the new log *)
+Ltac ho_strip Hin :=
+  repeat first
+    [ match type of Hin with
+      | In ?e (log (emit_removed ?t ?l ?y)) => apply (emit_removed_log t l y e eq_refl) in Hin
+      | In ?e (log (emit_destroyed ?t ?l ?y)) => apply (emit_destroyed_log t l y e eq_refl) in Hin
+      | In ?e (log (resize_locked ?y ?t ?n)) => apply (resize_locked_log y t n e eq_refl) in Hin
+      | In ?e (log (sem_add ?y)) => rewrite sem_add_log in Hin
+      end
+    | progress (sp; cbn [In] in Hin) ].
+
+Ltac ho_finish :=
+  unfold acquire, leave_wait, next_stage, first_stage, status_event;
   repeat match goal with
-         | H : _ \/ _ |- _ => destruct H as [H|H]
+         | |- context [if ?b then _ else _] => destruct b
+         | |- context [match ?y with _ => _ end] =>
+             lazymatch y with
+             | gw _ => destruct y
+             | pre _ => destruct y
+             | post _ => destruct y
+             | pcr _ => destruct y
+             | _ => is_var y; destruct y
+             end
+         end;
+  sp; autorewrite with fld;
+  let Hin := fresh "Hin" in intros Hin; ho_strip Hin;
+  repeat match goal with
+         | H : _ \/ _ |- _ => destruct H as [H|H]; ho_strip H
          | H : EHandOut _ _ = EHandOut _ _ |- _ => inversion H; subst; clear H
          | H : _ = EHandOut _ _ |- _ => discriminate H
          end;
-  first [left; assumption | right; left; reflexivity | tauto].
+  first [ left; assumption
+        | right; left; reflexivity
+        | left; match goal with RL : In _ (log _) -> In _ (log _) |- _ => apply RL; assumption end
+        | tauto ].
 
 Theorem handout_enters_out c s l s' o t :
   step c s l = Some s' -> In (EHandOut o t) (log s') -> In (EHandOut o t) (log s) \/ In o (out s').
 Proof.
-  intros H. destruct l as [t0 op|t0|t0 r|t0|t0|n]; cbn [step] in H.
-  - unfold start in H. destruct (Nat.eqb t0 (length (tasks s))); cbn [negb] in H; [|discriminate].
-    destruct op as [g|y|y|n|ds| | | ]; cbn [option_map] in H;
-      repeat match type of H with context [if ?b then _ else _] => destruct b
-                                | context [match find_oid ?a ?b with _ => _ end] => destruct (find_oid a b) end;
-      inversion H; subst; ho_plain.
+  intros H. destruct l; cbn [step] in H.
+  - unfold start in H.
+    match type of H with context [Nat.eqb ?t0 (length (tasks s))] =>
+      destruct (Nat.eqb t0 (length (tasks s))); cbn [negb] in H; [|discriminate] end.
+    match goal with op0 : op |- _ => destruct op0 end; cbn [option_map] in H;
+      repeat match type of H with
+             | context [if ?b then _ else _] => destruct b
+             | context [match ?y with _ => _ end] => destruct y
+             end; try discriminate H; inversion H; subst; ho_finish.
   - unfold step_task in H.
-    destruct (pcof s t0) eqn:Hpc; cbn [option_map] in H; try discriminate H.
-    + destruct (gr g); [|destruct (runtime c)..]; inversion H; subst; ho_plain.
-    + inversion H; subst. unfold acquire.
-      destruct (gw g); cbn match;
-        repeat match goal with |- context [if ?b then _ else _] => destruct b end; ho_plain.
-    + destruct (closed s); [|destruct a]; inversion H; subst; try destruct a; ho_plain.
-    + destruct (Z.ltb 0 (debt s)); inversion H; subst; ho_plain.
-    + destruct (pop_idle c (vec s)) as [[o1 r1]|].
-      * inversion H; subst. unfold first_stage. destruct (pre c); ho_plain.
-      * destruct (gc g); [|destruct (runtime c)..]; inversion H; subst; ho_plain.
-    + destruct (pcr c); inversion H; subst; ho_plain.
-    + inversion H; subst; ho_plain.
-    + destruct c0; inversion H; subst; ho_plain.
-    + inversion H; subst; ho_plain.
-    + inversion H; subst; ho_plain.
-    + destruct (alive s); inversion H; subst; ho_plain.
-    + destruct (Z.leb (size s) (maxs s)); inversion H; subst; ho_plain.
-    + inversion H; subst; ho_plain.
-    + inversion H; subst; ho_plain.
-    + inversion H; subst; ho_plain.
-    + destruct (alive s); inversion H; subst; ho_plain.
-    + inversion H; subst; ho_plain.
-    + inversion H; subst; ho_plain.
-    + inversion H; subst; ho_plain.
-    + destruct (closed s); inversion H; subst; [ho_plain|].
-      sp. intros Hin. left. apply (resize_locked_log _ _ _ (EHandOut o t) eq_refl Hin).
-    + pose proof (retain_loop_log t0 ds (vec s) s (EHandOut o t) eq_refl) as E.
-      destruct (retain_loop t0 ds (vec s) s) as [[s1 kept] removed].
-      inversion H; subst. sp. intros Hin. left. apply E.
-      apply (emit_removed_log t0 removed _ (EHandOut o t) eq_refl) in Hin. sp. cbn [In] in Hin.
-      destruct Hin as [Hin|Hin]; [discriminate Hin|exact Hin].
-    + inversion H; subst. sp. intros Hin. left.
-      apply (resize_locked_log _ _ _ (EHandOut o t) eq_refl) in Hin. exact Hin.
-    + inversion H; subst. unfold status_event. destruct (Z.ltb (users s) (size s)); ho_plain.
-    + inversion H; subst. sp. intros Hin. left.
-      apply (emit_destroyed_log _ _ _ (EHandOut o t) eq_refl) in Hin. exact Hin.
+    match type of H with context [pcof s ?t0] => destruct (pcof s t0) eqn:Hpc end;
+      cbn [option_map] in H; try discriminate H;
+      try match type of H with
+          | context [retain_loop ?t0 ?ds ?v ?s0] =>
+              pose proof (retain_loop_log t0 ds v s0 (EHandOut o t) eq_refl) as RL;
+              destruct (retain_loop t0 ds v s0) as [[? ?] ?]
+          end;
+      repeat match type of H with
+             | context [if ?b then _ else _] => destruct b
+             | context [match ?y with _ => _ end] => destruct y
+             end; try discriminate H; inversion H; subst; ho_finish.
   - unfold env_task in H.
-    destruct (pcof s t0) eqn:Hpc; cbn [option_map] in H; try discriminate H.
-    + destruct r; inversion H; subst; [|ho_plain..].
-      unfold next_stage.
-      destruct st as [k| |k];
-        repeat match goal with
-               | |- context [if ?b then _ else _] => destruct b
-               | |- context [match post c with _ => _ end] => destruct (post c)
-               end; ho_plain.
-    + destruct r; inversion H; subst; ho_plain.
-    + destruct r; [destruct (Nat.ltb (S k) (length (pcr c)))|..]; inversion H; subst; ho_plain.
+    match type of H with context [pcof s ?t0] => destruct (pcof s t0) eqn:Hpc end;
+      cbn [option_map] in H; try discriminate H;
+      repeat match type of H with
+             | context [if ?b then _ else _] => destruct b
+             | context [match ?y with _ => _ end] => destruct y
+             end; try discriminate H; inversion H; subst; ho_finish.
   - unfold cancel_task in H.
-    destruct (pcof s t0) eqn:Hpc; cbn [option_map] in H; try discriminate H.
-    + inversion H; subst. unfold leave_wait. destruct a; ho_plain.
-    + destruct (stage_async c st); inversion H; subst. ho_plain.
-    + inversion H; subst. ho_plain.
-    + destruct (is_async (pcr c) k); inversion H; subst. ho_plain.
+    match type of H with context [pcof s ?t0] => destruct (pcof s t0) eqn:Hpc end;
+      cbn [option_map] in H; try discriminate H;
+      repeat match type of H with
+             | context [if ?b then _ else _] => destruct b
+             | context [match ?y with _ => _ end] => destruct y
+             end; try discriminate H; inversion H; subst; ho_finish.
   - unfold fire_task in H. destruct (negb (runtime c)); [discriminate|].
-    destruct (pcof s t0) eqn:Hpc; cbn [option_map] in H; try discriminate H.
-    + destruct (gw g); inversion H; subst. unfold leave_wait. destruct a; ho_plain.
-    + destruct st; try discriminate H. destruct (timed (gr g)); inversion H; subst. ho_plain.
-    + destruct (timed (gc g)); inversion H; subst. ho_plain.
+    match type of H with context [pcof s ?t0] => destruct (pcof s t0) eqn:Hpc end;
+      cbn [option_map] in H; try discriminate H;
+      repeat match type of H with
+             | context [if ?b then _ else _] => destruct b
+             | context [match ?y with _ => _ end] => destruct y
+             end; try discriminate H; inversion H; subst; ho_finish.
   - inversion H; subst. tauto.
 Qed.
 
